@@ -43,11 +43,13 @@ def follow_cases(S):
     base = [0.8, 0.9, 1.0, 1.1, 1.2]
     with patched((M, "solve_ivp", solve_ivp), (M, "print", lambda *a, **k: None)):
         for vals in (base, base[::-1]):
-            for psi0 in (0.8, 1.2, 1.0, 0.95, 1.15, 0.7, 1.3, 0.8 + 1e-16):
+            # tolerance classes: both positive; exactly 0 for one of them (valid: the options are only
+            # required non-negative, findLegs itself passes rtol=0, the other tolerance then controls the error)
+            for psi0, (rtol, atol) in [(p0, (1e-8, 1e-9)) for p0 in (0.8, 1.2, 1.0, 0.95, 1.15, 0.7, 1.3, 0.8 + 1e-16)] + [(p0, tl) for p0 in (0.8, 1.0, 0.95) for tl in ((0.0, 1e-11), (1e-11, 0.0))]:
                 calls.clear()
                 n += 1
                 try:
-                    res = M.followPerpendicular(0, Point2D(1.0, 2.0), psi0, f_R=None, f_Z=None, psivals=list(vals), rtol=1e-8, atol=1e-9)
+                    res = M.followPerpendicular(0, Point2D(1.0, 2.0), psi0, f_R=None, f_Z=None, psivals=list(vals), rtol=rtol, atol=atol)
                 except Exception as e:
                     bad.append(dict(psivals=vals, psi0=psi0, problem="raised %r" % e))
                     continue
@@ -60,8 +62,8 @@ def follow_cases(S):
                     lo, hi = min(c["psirange"]), max(c["psirange"])
                     if not mono or not all(lo - 1e-15 <= x <= hi + 1e-15 for x in t) or abs(c["psirange"][0] - psi0) > 1e-12 or c["y0"] != (1.0, 2.0):
                         bad.append(dict(psivals=vals, psi0=psi0, call=c, problem="solve_ivp asked for values outside / not ordered along its integration range, or not started at (p0, psi0)"))
-                    if c["kw"].get("rtol") != 1e-8 or c["kw"].get("atol") != 1e-9:
-                        bad.append(dict(psivals=vals, psi0=psi0, problem="tolerances not passed to solve_ivp"))
+                    if c["kw"].get("rtol") != rtol or c["kw"].get("atol") != atol or type(c["kw"].get("rtol")) is not float or type(c["kw"].get("atol")) is not float:
+                        bad.append(dict(psivals=vals, psi0=psi0, requested=dict(rtol=rtol, atol=atol), passed=dict(rtol=c["kw"].get("rtol"), atol=c["kw"].get("atol")), problem="requested tolerances not passed to solve_ivp"))
     S.static_vc("followPerpendicular", FN_FP, "result[k] <-> psivals[k] for every position of psi0 (inside, at either end, outside, within rounding of an end) and both orderings (%d cases); integration starts at (p0, psi0) with the requested tolerances" % n, not bad, detail=repr(bad[:2]), kind="native-all-classes", model=bad[0] if bad else None)
 
 
